@@ -283,6 +283,7 @@ def run(ctx):
             if use_lean:
                 lean_cases.append((dump, c))
             ctx.sample({"document": c.text[:300], "variables": c.variables, "seed": c.seed, "impl": json.dumps(c.impl)[:300]})
+        shared_document_histories(ctx, schema, holder, dump, sdl, enum_kind, done)
         # history independence: re-execute earlier requests after everything else ran on this Schema object
         for c in rng.sample(done, min(4, len(done))):
             holder.world = X.World(dump, c.seed, c.mode)
@@ -311,8 +312,81 @@ def run(ctx):
     if not use_lean:
         ctx.notes.append("Lean driver not available: only the direct oracle (Python reference of the spec) ran")
     run_corpus(ctx)
+    shared_document_fixed(ctx)
     from corr import C04_default
     C04_default.run(ctx)       # plain data + the real default_resolver
+
+
+PETS_SDL = ("type Query { pets: [Pet!], pet: Pet }\ninterface Pet { name: String, owner: Owner }\n"
+            "type Dog implements Pet { name: String, owner: Owner, bark: Int }\n"
+            "type Cat implements Pet { name: String, owner: Owner }\ntype Owner { name: String, phone: String, pets: [Pet!] }\n")
+PETS_DOCS = [
+    ("query($full: Boolean!) { pets { __typename owner { name } ... on Dog @include(if: $full) { owner { phone } } } }",
+     [{"full": True}, {"full": False}, {"full": True}, {"full": False}]),
+    ("query($full: Boolean!, $x: Boolean = true) { pet { o: owner { name } o: owner @include(if: $full) { phone pets { name } } } "
+     "pets { ...P } } fragment P on Pet { owner { name } ... @skip(if: $full) { owner { phone } } owner @include(if: $x) { name } }",
+     [{"full": True}, {"full": False}, {"full": False, "x": False}, {"full": True}]),
+]
+
+
+def run_shared(ctx, schema, holder, dump, sdl, enum_kind, text, opname, var_history, seeds, label):
+    """ONE parsed Document object served several times with different variables: every response must be the one
+    of a freshly parsed document, and the Document must be left unchanged."""
+    from py_gql.lang import parse
+    doc_obj = parse(text)
+    before = json.dumps(doc_obj.to_dict(), sort_keys=True, default=str)
+    ok = True
+    for i, (vs, seed) in enumerate(zip(var_history, seeds)):
+        try:
+            st, ast, coerced = prepare(schema, text, vs, opname)
+        except Exception:  # noqa
+            return ok
+        if st != "ok":
+            ctx.stat("shared-document:" + st)
+            continue
+        docj = X.doc_to_json(ast, schema, coerced)
+        holder.world = X.World(dump, seed, 0)
+        impl = X.run_impl(schema, doc_obj, vs, opname)
+        spec = X.py_spec_run(dump, docj, opname, coerced, X.World(dump, seed, 0))
+        ctx.count()
+        ctx.stat("shared-document:request")
+        detail = {"sdl": sdl, "enum_kind": enum_kind, "document": text, "operation_name": opname, "mode": 0,
+                  "variable_history": var_history[:i + 1], "seeds": seeds[:i + 1], "shared_document": True}
+        if "internal" in impl or not X.results_agree(impl, spec, dedup_locs=True):
+            ctx.fail("history-dependence:shared-document:%s" % (classify(impl, spec) if "internal" not in impl else "internal:" + impl["internal"]),
+                     "a parsed Document served before (with other variables) now gives a response that differs from the "
+                     "specification's result for this request", dict(detail, impl=impl, spec=spec), kind="property")
+            ok = False
+            break
+    after = json.dumps(doc_obj.to_dict(), sort_keys=True, default=str)
+    if after != before:
+        ctx.fail("document-mutated-by-execution:%s" % label, "executing a request changed the parsed Document object (to_dict() before != after)",
+                 {"sdl": sdl, "enum_kind": enum_kind, "document": text, "operation_name": opname, "mode": 0,
+                  "variable_history": var_history, "seeds": seeds, "shared_document": True}, kind="property")
+        ok = False
+    return ok
+
+
+def shared_document_histories(ctx, schema, holder, dump, sdl, enum_kind, done):
+    rng = ctx.rng
+    cands = [c for c in done if any(isinstance(v, bool) for v in (c.variables or {}).values())]
+    rng.shuffle(cands)
+    for c in (cands[:2] + [d for d in done if d not in cands][:1]):
+        hist = [dict(c.variables or {})]
+        for _ in range(3):
+            v = dict(c.variables or {})
+            for k, val in v.items():
+                if isinstance(val, bool) and rng.random() < 0.6:
+                    v[k] = not val
+            hist.append(v)
+        run_shared(ctx, schema, holder, dump, sdl, enum_kind, c.text, c.opname, hist, [rng.randint(0, 10 ** 6) for _ in hist], "generated")
+
+
+def shared_document_fixed(ctx):
+    schema, holder, dump = X.build(PETS_SDL, 0)
+    for text, hist in PETS_DOCS:
+        for base in range(4):
+            run_shared(ctx, schema, holder, dump, PETS_SDL, 0, text, None, hist, [base * 10 + i for i in range(len(hist))], "pets")
 
 
 def flush_lean(ctx, lean_cases):
@@ -346,7 +420,7 @@ def run_corpus(ctx):
         return
     for p in sorted(d.glob("*.json")):
         data = json.loads(p.read_text())
-        for seed in [data.get("seed", 0)] + list(range(12)):      # the same request under several worlds
+        for seed in [data.get("seed", 0)] + data.get("more_seeds", []) + list(range(12)):      # the same request under several worlds
             d2 = dict(data, seed=seed)
             ctx.count()
             if not replay(ctx, {"input": d2}, quiet=True):
@@ -359,6 +433,24 @@ def replay(ctx, data, quiet=False):
     if "root" in inp:
         from corr import C04_default
         return C04_default.replay(ctx, inp)
+    if inp.get("shared_document"):
+        class _C:  # minimal ctx: collect failures
+            def __init__(self):
+                self.bad = []
+                self.rng = ctx.rng
+            def fail(self, sig, what, detail, kind="property"):
+                self.bad.append(sig)
+            def count(self, k=1):
+                pass
+            def stat(self, n, k=1):
+                pass
+        c2 = _C()
+        schema, holder, dump = X.build(inp["sdl"], inp.get("enum_kind", 0))
+        ok = run_shared(c2, schema, holder, dump, inp["sdl"], inp.get("enum_kind", 0), inp["document"], inp.get("operation_name"),
+                        inp["variable_history"], inp["seeds"], "replay")
+        if c2.bad:
+            print("fails:", c2.bad)
+        return ok and not c2.bad
     schema, holder, dump = X.build(inp["sdl"], inp.get("enum_kind", 0))
     c = Case()
     c.sdl, c.enum_kind = inp["sdl"], inp.get("enum_kind", 0)
